@@ -497,6 +497,7 @@ type access struct {
 	tid   int
 	clock int
 	where string
+	full  string
 }
 type shadow struct {
 	w     *access
@@ -539,11 +540,17 @@ func (m *Machine) raceAccess(th *Thread, c *Cell, write bool) {
 	}
 	here := ""
 	report := func(a *access, kind string) {
+		if a.tid < len(m.threads) {
+			o := m.threads[a.tid]
+			if a.tid >= len(o.vc) || a.clock > o.vc[a.tid] {
+				panic(fmt.Sprintf("race monitor invariant: access clock %d of T%d exceeds that thread's clock %v", a.clock, a.tid, o.vc))
+			}
+		}
 		here = m.whereShort(th)
 		locs := []string{a.where, here}
 		sort.Strings(locs)
 		key := locs[0] + " | " + locs[1]
-		m.w.reportRace(m, key, fmt.Sprintf("data race (%s): %s  vs  %s", kind, a.where, here))
+		m.w.reportRace(m, key, fmt.Sprintf("data race (%s): %s  vs  %s [current access T%d: %s] [previous access T%d clock %d: %s] [current vc %v]", kind, a.where, here, th.id, m.whereOf(th), a.tid, a.clock, a.full, th.vc))
 	}
 	if sh.w != nil && !hb(sh.w) {
 		if write {
@@ -558,27 +565,45 @@ func (m *Machine) raceAccess(th *Thread, c *Cell, write bool) {
 				report(&sh.reads[k], "read-write")
 			}
 		}
-		sh.w = &access{th.id, th.vc[th.id], m.whereShort(th)}
+		sh.w = &access{th.id, th.vc[th.id], m.whereShort(th), m.fullIfVerbose(th)}
 		sh.reads = sh.reads[:0]
 	} else {
 		for k := range sh.reads {
 			if sh.reads[k].tid == th.id {
 				sh.reads[k].clock = th.vc[th.id]
+				sh.reads[k].where = m.whereShort(th)
+				sh.reads[k].full = m.fullIfVerbose(th)
 				return
 			}
 		}
-		sh.reads = append(sh.reads, access{th.id, th.vc[th.id], m.whereShort(th)})
+		sh.reads = append(sh.reads, access{th.id, th.vc[th.id], m.whereShort(th), m.fullIfVerbose(th)})
 	}
+}
+
+func (m *Machine) fullIfVerbose(th *Thread) string {
+	if m.w.ex.cfg.Verbose {
+		return m.whereOf(th)
+	}
+	return ""
 }
 
 func (m *Machine) whereShort(th *Thread) string {
 	for i := len(th.frames) - 1; i >= 0; i-- {
 		fr := th.frames[i]
-		if fr.block != nil && fr.pc < len(fr.block.Instrs) {
-			p := m.p.prog.Fset.Position(fr.block.Instrs[fr.pc].Pos())
-			if p.IsValid() && strings.Contains(p.Filename, "/repo/") && !strings.Contains(p.Filename, "zz_verif") {
-				return fmt.Sprintf("%s:%d", shortFile(p.Filename), p.Line)
-			}
+		if fr.block == nil {
+			continue
+		}
+		// the instruction being executed: for callers the call instruction precedes pc
+		k := fr.pc
+		if i < len(th.frames)-1 {
+			k = fr.pc - 1
+		}
+		if k < 0 || k >= len(fr.block.Instrs) {
+			continue
+		}
+		p := m.p.prog.Fset.Position(fr.block.Instrs[k].Pos())
+		if p.IsValid() && strings.Contains(p.Filename, "/repo/") && !strings.Contains(p.Filename, "zz_verif") && !strings.Contains(p.Filename, "/internal/verif") {
+			return fmt.Sprintf("%s:%d", shortFile(p.Filename), p.Line)
 		}
 	}
 	if len(th.frames) > 0 {
